@@ -23,7 +23,7 @@ EXTENDS Integers, Sequences, FiniteSets, TLC, SequencesExt, Json, WireBase
 
 CONSTANTS Tier,       \* "quick" | "thorough" (both exported) | "deep" | "full6" | "full7" | "utf" (model only)
           Export,     \* BOOLEAN: print the exported subset as vectors
-          Fams        \* subset of {"hf", "hb", "rt", "short6", "short7", "cor6", "cor7"}: the families of this run
+          Fams        \* subset of {"hf", "hb", "rt", "short6", "short7", "cor6", "cor7", "heur6"}: the families of this run
 
 W6 == INSTANCE Wire
 W7 == INSTANCE Wire7
@@ -256,13 +256,21 @@ Inexpressible6(p) == p.t = "connless" /\ Len(p.data) > MAX_PAYLOAD
 Inexpressible7(p) == \/ p.t = "connless" /\ Len(p.data) > MAX_PAYLOAD
                      \/ p.t = "ctrl" /\ p.c \in {"connect", "token"} /\ p.rt = TOKEN_NONE
 
+\* accept -> write -> re-read under the *same* hint: a reader without hint ("none") must get the value
+\* back as well (for "true"/"false" the same hint is the true token mode, covered by RoundTrip6)
+SameHint6(p, hint) ==
+  hint # "none" \/ W6!DocumentedAmbiguity(p)
+  \/ LET w == W6!WriteWith(p, Z6(p), CAP)
+         r == W6!ReadWith(w.bytes, "none", D6(w.bytes))
+     IN r.r = "ok" /\ r.p = p
+
 Total6(b, hint) ==
   LET r == W6!ReadWith(b, hint, D6(b)) IN
   /\ r.r \in {"ok", "err"}
   /\ r.r = "err" => r.e \in ErrKinds6
   /\ r.r = "ok" =>
        /\ r.w \subseteq WarnKinds6
-       /\ IF W6!Expressible(r.p) THEN RoundTrip6(r.p) ELSE Inexpressible6(r.p)
+       /\ IF W6!Expressible(r.p) THEN RoundTrip6(r.p) /\ SameHint6(r.p, hint) ELSE Inexpressible6(r.p)
        /\ r.p.t = "chunks" => LET it == W6!Chunks(r.p.data, r.p.nc) IN
                               it.done /\ it.w \subseteq WarnKinds6
                               /\ \A j \in 1..Len(it.chunks) : it.chunks[j].off + it.chunks[j].len <= Len(r.p.data)
@@ -326,6 +334,30 @@ InitCor6 == \E b \in Valid6(0) : \E b2 \in CorOf(b, T3(9, 12, 16), T3(0, 5, 10))
 InitCor7 == \E b \in Valid7(0) : \E b2 \in CorOf(b, T3(13, 16, 20), T3(0, 9, 14)) :
               Mk([k |-> "rd", v |-> 7, hint |-> "none", bytes |-> b2])
 
+\* both sides of every branch of the 0.6 token heuristic (HasTokenHeur), under every hint:
+\*   close:   every payload over letters that make NUL positions and valid / invalid UTF-8 triples
+\*            (61 ASCII, c3 a9 two-byte sequence, e2 82 ac three-byte sequence, ff never valid), lengths
+\*            0..5 (deep: 6) behind the control byte: empty / 3-byte / 4-byte reasons with and without NUL,
+\*            tokens with 00 at each position, the ambiguous 4-byte payload;
+\*   connect / connectaccept: every prefix and near miss of the TKEN magic, then 0..4 bytes;
+\*   other control codes: 0..5 bytes;   chunks: nc 0..2, chunk areas that parse / do not parse, 0..5 bytes
+HLetters == T3({0, 97, 195, 169}, {0, 97, 195, 169, 226, 130, 255}, {0, 97, 195, 169, 226, 130, 255})
+HLen == T3(5, 5, 6)
+StrUpTo(A, n) == UNION {[1..m -> A] : m \in 0..n}
+Magics == {<<>>, <<84>>, <<84, 75>>, <<84, 75, 69>>, TKEN, <<84, 75, 69, 88>>, <<88, 75, 69, 78>>}
+Areas == {<<>>, <<0>>, <<0, 0>>, <<0, 1, 7>>, <<0, 1>>, <<64, 1, 0, 7>>, <<64, 0>>, <<0, 0, 64, 0, 9>>}
+HFirst == T3({16}, {16, 80}, {16, 80, 20})
+InitHeur6 ==
+  \E h \in Hints :
+    \/ \E f \in HFirst, s \in StrUpTo(HLetters, HLen) :
+         Mk([k |-> "rd", v |-> 6, hint |-> h, bytes |-> <<f, 0, 0, 4>> \o s])
+    \/ \E c \in {1, 2}, m \in Magics, s \in StrUpTo({0, 97}, 4) :
+         Mk([k |-> "rd", v |-> 6, hint |-> h, bytes |-> <<16, 0, 0, c>> \o m \o s])
+    \/ \E c \in {0, 3, 5}, s \in StrUpTo({0, 97}, 5) :
+         Mk([k |-> "rd", v |-> 6, hint |-> h, bytes |-> <<16, 0, 0, c>> \o s])
+    \/ \E n \in 0..2, a \in Areas, s \in StrUpTo({0, 97}, T3(4, 5, 5)) :
+         Mk([k |-> "rd", v |-> 6, hint |-> h, bytes |-> <<0, 0, n>> \o a \o s])
+
 ---------------------------------------------------------------------------
 \* the UTF-8 predicate: the code's comment counts 2650112 valid three-byte strings
 Utf8Count(u) ==
@@ -345,6 +377,7 @@ Init ==
                 \/ "short7" \in Fams /\ InitShort7
                 \/ "cor6" \in Fams /\ InitCor6
                 \/ "cor7" \in Fams /\ InitCor7
+                \/ "heur6" \in Fams /\ InitHeur6
 Next == UNCHANGED vars
 
 \* exported subset: everything except the widest byte sweeps, which are thinned
